@@ -1,4 +1,5 @@
 // Copyright(C) Facebook, Inc. and its affiliates.
+#![allow(unexpected_cfgs)]
 use ed25519_dalek as dalek;
 use ed25519_dalek::ed25519;
 use ed25519_dalek::Signer as _;
@@ -229,9 +230,13 @@ pub struct SignatureService {
 impl SignatureService {
     pub fn new(secret: SecretKey) -> Self {
         let (tx, mut rx): (Sender<(_, oneshot::Sender<_>)>, _) = channel(100);
+        #[cfg(hotstuff_verif)]
+        let verif_name = PublicKey(secret.0[32..].try_into().expect("Unexpected key length"));
         tokio::spawn(async move {
             while let Some((digest, sender)) = rx.recv().await {
                 let signature = Signature::new(&digest, &secret);
+                #[cfg(hotstuff_verif)]
+                verif::emit(verif::Event::Signed { signer: verif_name, digest: digest.clone() });
                 let _ = sender.send(signature);
             }
         });
@@ -246,5 +251,30 @@ impl SignatureService {
         receiver
             .await
             .expect("Failed to receive signature from Signature Service")
+    }
+}
+
+/// Verification hook (compiled only with `--cfg hotstuff_verif`): an event sink.
+#[cfg(hotstuff_verif)]
+pub mod verif {
+    use std::sync::RwLock;
+
+    #[derive(Clone, Debug)]
+    pub enum Event {
+        /// The signature service signed `digest` with the key of `signer`.
+        Signed { signer: super::PublicKey, digest: super::Digest },
+    }
+
+    type Sink = Box<dyn Fn(Event) + Send + Sync>;
+    static SINK: RwLock<Option<Sink>> = RwLock::new(None);
+
+    pub fn set_sink(sink: Option<Sink>) {
+        *SINK.write().unwrap_or_else(|e| e.into_inner()) = sink;
+    }
+
+    pub fn emit(event: Event) {
+        if let Some(sink) = SINK.read().unwrap_or_else(|e| e.into_inner()).as_ref() {
+            sink(event)
+        }
     }
 }
